@@ -32,6 +32,18 @@ def check(w, tier, t0):
     if not r.ok:
         raise lib.Inconclusive("Reads model run failed:\n" + (r.error or ""))
     states, trans = r.distinct, r.generated
+    # unbounded part: the integer machine BatchLoop is proved right for ALL sizes by Apalache
+    # (inductive invariant), and TLC checks on the grid that it is the sequence-level transcription
+    da = w.sub("apalache")
+    ok0, _, out0 = lib.apalache(da, "BatchLoop", ["--cinit=CInit", "--init=Init", "--inv=IndInv", "--length=0"])
+    ok1, _, out1 = lib.apalache(da, "BatchLoop", ["--cinit=CInit", "--init=IndInit", "--inv=IndInv", "--length=1"])
+    if not (ok0 and ok1):
+        raise lib.Inconclusive("BatchLoop: the inductive invariant was not established by Apalache:\n" + (out0 if not ok0 else out1))
+    rx = lib.tlc(w.sub("blx"), "BatchLoopX", lib.cfg_of("BatchLoopX", MAXN=7 if tier == "quick" else 9, MAXB=8 if tier == "quick" else 10), timeout=3000)
+    if not rx.ok:
+        raise lib.Inconclusive("BatchLoopX: the integer machine differs from the transcription of the loop:\n" + (rx.error or ""))
+    states += rx.distinct
+    trans += rx.generated
     d = w.sub("run")
     maxn, maxb = (5, 6) if tier == "quick" else (8, 9)
     nrand = 1600 if tier == "quick" else 300000
@@ -77,7 +89,8 @@ def check(w, tier, t0):
     cov = {"states": states, "transitions": trans, "traces_validated_against_impl": len(events), "samples": samples,
            "evaluations": len(events), "distinct_nontrivial": len(nontrivial),
            "rule": "one evaluation = one chain (condition, order, sequence of Limit/Offset calls incl. overriding and cancelling ones) on one table, observed through Find into structs / pointers / maps, Rows+ScanRows, Scan, Pluck, Count, First/Last/Take (struct and map), Find into a single struct, Scan into a primitive, and FindInBatches for several batch sizes; the full grid table size 0..%d x batch 1..%d x limit absent/1..%d x offset absent/0..%d plus %d random chains on random tables with NULLs and key gaps; non-trivial = at least one Limit/Offset call on a table of >= 2 rows" % (maxn, maxb, maxb, maxb, nrand),
-           "exhaustive": True, "grid_points": ngrid, "impl_model_conformant": drift == 0}
+           "exhaustive": True, "grid_points": ngrid, "impl_model_conformant": drift == 0,
+           "unbounded": "BatchLoop.tla: inductive invariant of the FindInBatches loop (stops with exactly the page delivered, no batch larger than requested) established by Apalache for all table sizes, batch sizes, limits and offsets; BatchLoopX.tla: TLC checks on the grid that this machine yields the batch sizes of the sequence-level transcription"}
     lib.write_evidence(PROP, tier, "model_checking", cov, time.time() - t0, len(verdict.violations),
                        ["Limit(0) is not generated", "FindInBatches without a user Order", "Count without limit/offset/grouping",
                         "with an unspecified order and a page only size, membership and distinctness are determined"])
